@@ -10,15 +10,17 @@ class Quota(Relation):
     name = 'R_quota'
     kind = 'corr'
     requires = REQ
-    describe = ('create_quotas(n, q) exhaustively for n in 1..12, q in 0..40, plus values around 2^52 (where python\'s '
-                'float division stops being exact) and n = 0; non-trivial = q mod n != 0')
+    describe = ('create_quotas(n, q) exhaustively for n in 1..12, q in 0..40, plus values around 2^52 and beyond 2^53 (where python\'s '
+                'float division stops being exact; F15) and n = 0; non-trivial = q mod n != 0')
 
     def cases(self, ctx):
         top = 24 if ctx.thorough else 12
         for n in range(1, top + 1):
             for q in range(0, 4 * top + 1 if ctx.thorough else 41):
                 yield dict(n=n, q=q)
-        for n, q in [(3, 2**52 - 5), (7, 2**51 + 3), (1, 2**52 - 1), (0, 5), (2, 10**6 + 1)]:
+        for n, q in [(3, 2**52 - 5), (7, 2**51 + 3), (1, 2**52 - 1), (0, 5), (2, 10**6 + 1),
+                     # beyond 2^53 a float quotient is no longer exact (defect F15, repaired)
+                     (3, 29999999999999999), (3, 2**53 + 1), (7, 10**17 + 3), (5, 2**60 + 7), (2, 2**53 + 3)]:
             yield dict(n=n, q=q)
 
     def observe(self, inp):
@@ -33,6 +35,20 @@ class Quota(Relation):
 
     def nontrivial(self, inp, obs):
         return inp['n'] > 0 and inp['q'] % inp['n'] != 0
+
+
+class QuotaSpec(Quota):
+    name = 'M_quota'
+    kind = 'monitor'
+    describe = ('the same (n, q): what create_quotas returns must be n shares summing to q, each floor(q/n) or one more, '
+                'larger shares first (the property\'s own words, evaluated in Coq on the returned list)')
+
+    def term(self, inp, obs):
+        return '(m_quota %s %s %s)' % (C.cz(inp['n']), C.cz(inp['q']), C.cresult(obs, C.czlist))
+
+    def what(self, inp, obs):
+        return 'create_quotas(%d, %d) returned %r: not an even spread summing to the requested total' % (
+            inp['n'], inp['q'], obs[1])
 
 
 class ProjLec(Relation):
@@ -180,4 +196,4 @@ class GenShape(GenFile):
         return None
 
 
-RELATIONS = [Quota(), ProjLec(), GenFile(), GenShape()]
+RELATIONS = [Quota(), QuotaSpec(), ProjLec(), GenFile(), GenShape()]
